@@ -43,6 +43,17 @@ Fixpoint fprod_sub (x : F) (l : list F) : F :=
 
 Definition all0 (p : list F) : Prop := Forall (fun c => c = f0 K) p.
 
+(* formal derivative without the degree trimming of the code: c_i -> (i+1) c_{i+1} *)
+Definition pderiv_r (p : list F) : list F := mapi (fun i c => fmul_nat K c (S i)) (tl p).
+
+(* same coefficient function (equal up to trailing zeros) *)
+Definition coeff_eq (p q : list F) : Prop := forall i, nth i p (f0 K) = nth i q (f0 K).
+
+(* n.1 and the rising product (i+1)(i+2)...(i+j) in the field *)
+Definition fnat (n : nat) : F := fmul_nat K (f1 K) n.
+Fixpoint frising (i j : nat) : F :=
+  match j with O => f1 K | S j' => fmul K (frising i j') (fnat (i + S j')) end.
+
 End PolyDefs.
 
 Section PolyProofs.
@@ -294,6 +305,150 @@ Proof.
   intros. rewrite peval_r_snoc, peval_r_repeat0, repeat_length. ring.
 Qed.
 
+(* ---- coefficient functions, trailing zeros ------------------------------------------- *)
+
+Lemma coeff_all0 : forall q, (forall i, nth i q 0 = 0) -> all0 K q.
+Proof.
+  induction q as [|d u IH]; intros H; [constructor|].
+  constructor; [exact (H O)|]. apply IH. intros i. exact (H (S i)).
+Qed.
+
+Lemma all0_nth : forall q i, all0 K q -> nth i q 0 = 0.
+Proof.
+  induction q as [|d u IH]; intros i H; [destruct i; reflexivity|].
+  inversion H as [|d' u' Hd Hu]; subst. destruct i; cbn [nth]; [reflexivity|]. apply IH; exact Hu.
+Qed.
+
+Theorem peval_r_coeff_eq : forall p q, coeff_eq K p q -> forall x, peval_r K p x = peval_r K q x.
+Proof.
+  induction p as [|c t IH]; intros q H x.
+  - rewrite (all0_peval_r q x); [reflexivity|].
+    apply coeff_all0. intros i. rewrite <- (H i). destruct i; reflexivity.
+  - destruct q as [|d u].
+    + apply all0_peval_r. apply coeff_all0. intros i. rewrite (H i). destruct i; reflexivity.
+    + cbn [peval_r]. pose proof (H O) as H0. cbn [nth] in H0. subst d.
+      rewrite (IH u); [reflexivity|]. intros i. exact (H (S i)).
+Qed.
+
+Lemma nth_monomial : forall m c i, nth i (repeat 0 m ++ [c]) 0 = if Nat.eqb i m then c else 0.
+Proof.
+  intros m c i. destruct (Nat.eqb i m) eqn:E.
+  - apply Nat.eqb_eq in E. subst i. rewrite app_nth2 by (rewrite repeat_length; lia).
+    rewrite repeat_length, Nat.sub_diag. reflexivity.
+  - apply Nat.eqb_neq in E. destruct (Nat.lt_ge_cases i m) as [Hlt|Hge].
+    + rewrite app_nth1 by (rewrite repeat_length; exact Hlt). apply nth_repeat.
+    + apply nth_overflow. rewrite app_length, repeat_length. cbn [length]. lia.
+Qed.
+
+Lemma peval_r_monomial_c : forall m c x, peval_r K (repeat 0 m ++ [c]) x = c * fpow K x m.
+Proof. intros. rewrite peval_r_snoc, peval_r_repeat0, repeat_length. ring. Qed.
+
+(* ---- Derivative ----------------------------------------------------------------------- *)
+
+Lemma fmul_nat_0 : forall n, fmul_nat K 0 n = 0.
+Proof. induction n as [|n IH]; cbn [fmul_nat]; [reflexivity|]. rewrite IH. ring. Qed.
+
+Lemma fmul_nat_fnat : forall c n, fmul_nat K c n = c * fnat K n.
+Proof.
+  intros c; induction n as [|n IH]; unfold fnat in *; cbn [fmul_nat]; [ring|]. rewrite IH. ring.
+Qed.
+
+Lemma ptrim_len_nth0 : forall p i, (ptrim_len K p <= i)%nat -> nth i p 0 = 0.
+Proof.
+  induction p as [|c t IH]; intros i Hi; [destruct i; reflexivity|].
+  cbn [ptrim_len] in Hi. destruct (ptrim_len K t) as [|n] eqn:E.
+  - destruct i as [|i]; cbn [nth].
+    + destruct (fis0 K c) eqn:Ec; [apply (fis0_true K HK); exact Ec | lia].
+    + apply IH. lia.
+  - destruct i as [|i]; [lia|]. cbn [nth]. apply IH. lia.
+Qed.
+
+Lemma nth_tl : forall (p : list F) i, nth i (tl p) 0 = nth (S i) p 0.
+Proof. intros [|c t] i; [destruct i; reflexivity | reflexivity]. Qed.
+
+Lemma nth_firstn_lt' : forall (l : list F) n j, (j < n)%nat -> nth j (firstn n l) 0 = nth j l 0.
+Proof.
+  induction l as [|h t IH]; intros n j Hj.
+  - rewrite firstn_nil. reflexivity.
+  - destruct n as [|n]; [lia|]. cbn [firstn]. destruct j as [|j]; cbn [nth]; [reflexivity|].
+    apply IH. lia.
+Qed.
+
+Lemma nth_mapi_fmul_nat : forall (l : list F) i,
+  nth i (mapi (fun i c => fmul_nat K c (S i)) l) 0 = fmul_nat K (nth i l 0) (S i).
+Proof.
+  intros l i. destruct (Nat.lt_ge_cases i (length l)) as [Hlt|Hge].
+  - rewrite (nth_mapi (fun i c => fmul_nat K c (S i)) l i 0 0 Hlt). reflexivity.
+  - rewrite nth_overflow by (rewrite mapi_length; exact Hge).
+    rewrite (nth_overflow l) by exact Hge. symmetry. apply fmul_nat_0.
+Qed.
+
+Lemma pderiv_r_nth : forall p i, nth i (pderiv_r K p) 0 = fmul_nat K (nth (S i) p 0) (S i).
+Proof. intros. unfold pderiv_r. rewrite nth_mapi_fmul_nat, nth_tl. reflexivity. Qed.
+
+(* coefficient-level correctness of the coded Derivative (with its Degree-based trimming):
+   coefficient i of p' is (i+1) * c_{i+1} *)
+Theorem pderiv_nth : forall p i, nth i (pderiv K p) 0 = fmul_nat K (nth (S i) p 0) (S i).
+Proof.
+  intros p i. unfold pderiv, pdegree.
+  destruct (ptrim_len K p) as [|[|d]] eqn:E.
+  - rewrite (ptrim_len_nth0 p (S i)) by lia. rewrite fmul_nat_0.
+    destruct i as [|[|i]]; reflexivity.
+  - rewrite (ptrim_len_nth0 p (S i)) by lia. rewrite fmul_nat_0.
+    destruct i as [|[|i]]; reflexivity.
+  - rewrite nth_mapi_fmul_nat. destruct (Nat.lt_ge_cases i (S d)) as [Hlt|Hge].
+    + rewrite nth_firstn_lt' by exact Hlt. rewrite nth_tl. reflexivity.
+    + rewrite (nth_overflow (firstn (S d) (tl p))) by (rewrite firstn_length; lia).
+      rewrite (ptrim_len_nth0 p (S i)) by lia. reflexivity.
+Qed.
+
+Corollary pderiv_coeff_eq : forall p, coeff_eq K (pderiv K p) (pderiv_r K p).
+Proof. intros p i. rewrite pderiv_nth, pderiv_r_nth. reflexivity. Qed.
+
+Corollary pderiv_eval : forall p x, peval K (pderiv K p) x = peval_r K (pderiv_r K p) x.
+Proof. intros. rewrite peval_eq_peval_r. apply peval_r_coeff_eq. apply pderiv_coeff_eq. Qed.
+
+Lemma peval_r_mapi_from_S : forall u k x,
+  peval_r K (mapi_from (S k) (fun i c => fmul_nat K c (S i)) u) x =
+  peval_r K u x + peval_r K (mapi_from k (fun i c => fmul_nat K c (S i)) u) x.
+Proof.
+  induction u as [|a u IH]; intros k x; cbn [mapi_from peval_r].
+  - ring.
+  - rewrite IH. cbn [fmul_nat]. ring.
+Qed.
+
+(* (c + X t)' = t + X t' *)
+Theorem pderiv_r_cons : forall c t x,
+  peval_r K (pderiv_r K (c :: t)) x = peval_r K t x + x * peval_r K (pderiv_r K t) x.
+Proof.
+  intros c t x. unfold pderiv_r, mapi. cbn [tl]. destruct t as [|d u].
+  - cbn [mapi_from tl peval_r]. ring.
+  - cbn [mapi_from tl peval_r]. rewrite peval_r_mapi_from_S. cbn [fmul_nat]. ring.
+Qed.
+
+(* algebraic characterisation: p'(a) is the value at a of the quotient of p(X) - p(a) by X - a *)
+Theorem pderiv_r_quot : forall p a, peval_r K (pderiv_r K p) a = peval_r K (pquot K p a) a.
+Proof.
+  induction p as [|c t IH]; intros a; [reflexivity|].
+  rewrite pderiv_r_cons. destruct t as [|d t'].
+  - cbn [pquot pderiv_r tl mapi mapi_from peval_r]. ring.
+  - change (pquot K (c :: d :: t') a) with (peval_r K (d :: t') a :: pquot K (d :: t') a).
+    rewrite (peval_r_cons (peval_r K (d :: t') a)). rewrite (IH a). reflexivity.
+Qed.
+
+Theorem pderiv_quot : forall p a, peval K (pderiv K p) a = peval_r K (pquot K p a) a.
+Proof. intros. rewrite pderiv_eval. apply pderiv_r_quot. Qed.
+
+(* iterated derivative, coefficient level: coefficient i of p^(j) is (i+1)...(i+j) c_{i+j} *)
+Theorem pderiv_iter_nth : forall j p i,
+  nth i (pderiv_iter K j p) 0 = nth (i + j) p 0 * frising K i j.
+Proof.
+  induction j as [|j IH]; intros p i; cbn [pderiv_iter frising].
+  - rewrite Nat.add_0_r. ring.
+  - rewrite IH, pderiv_nth, fmul_nat_fnat.
+    replace (S (i + j)) with (i + S j)%nat by lia. ring.
+Qed.
+
 End PolyProofs.
 
 (* ---- Examples (direct computations over Z_101) --------------------------------------------- *)
@@ -312,3 +467,9 @@ Example ex_roots_nontrivial :   (* 3 distinct roots, 4 coefficients: non-zero po
   let K := Zp 101 in let p := pprod_lin K [4;9;1]%Z in
   length p = 4%nat /\ map (peval_r K p) [4;9;1]%Z = [0;0;0]%Z /\ peval_r K p 2%Z <> 0%Z.
 Proof. vm_compute. repeat split; discriminate. Qed.
+
+Example ex_pderiv :
+  pderiv (Zp 101) [3;5;7;2]%Z = [5;14;6]%Z /\ pderiv (Zp 101) [3;5;0;0]%Z = [5]%Z /\
+  pderiv (Zp 101) [3]%Z = [0]%Z /\
+  peval (Zp 101) (pderiv (Zp 101) [3;5;7;2]%Z) 4%Z = peval_r (Zp 101) (pquot (Zp 101) [3;5;7;2]%Z 4%Z) 4%Z.
+Proof. vm_compute. repeat split; reflexivity. Qed.
